@@ -751,9 +751,11 @@ def rule_spanorder(ctx):
     parents = f.module.parents
     # the list that is finally replayed: iterated by the loop that builds the returned path
     seqn = None
+    returned = {dotted(n.value) for n in walk_local(f.node) if isinstance(n, ast.Return) and n.value is not None}
     for n in walk_local(f.node):
         if isinstance(n, ast.For) and isinstance(n.iter, ast.Name) and isinstance(n.target, ast.Tuple) and \
-                any(isinstance(x, ast.Call) and isinstance(x.func, ast.Attribute) and x.func.attr == "append" for x in ast.walk(n)):
+                any(isinstance(x, ast.Call) and isinstance(x.func, ast.Attribute) and x.func.attr == "append"
+                    and dotted(x.func.value) in returned for x in ast.walk(n)):
             seqn = n.iter.id
             replay = n
     C.require(seqn is not None, "GreedySpan.get_ssa_path: replay loop not found")
